@@ -236,6 +236,24 @@ func runSession(c *fw.Ctx, idx int, r *fw.Rand) {
 			s.external(s.user)
 			c.Count("external_change_between_user_and_pass", 1)
 		}
+		if s.state == "TRANS" && r.Chance(1, 10) {
+			s.externalRemoveMarked()
+		}
+		if n > 2 && r.Chance(1, 40) {
+			// The server's idle timeout expires (injected logically): the session must end and,
+			// whatever was marked, nothing may be removed.
+			s.ps.Q.FireReadTimeout()
+			if _, ok := s.ps.Q.WaitIdle(s.ps.Watchdog); !ok {
+				c.Hang("pop3-session-idle", "POP3 session neither idle nor closed after its read deadline expired", "")
+				s.failed = true
+				return
+			}
+			s.ps.Q.Take()
+			s.over = true
+			s.ending = "idle-timeout-" + strings.ToLower(s.state)
+			c.Count("end:idle-timeout", 1)
+			break
+		}
 		cm := s.next()
 		if cm.kind == "close" {
 			break
@@ -304,6 +322,42 @@ func (s *psess) external(box string) {
 	s.add(s.box)
 	s.extAdd = true
 	s.c.Count("external_adds", 1)
+}
+
+// externalRemoveMarked removes, behind the session's back, the lowest-numbered message that the
+// session has marked for deletion and that is still in the store: at QUIT the session's own
+// removal of it then fails, which must not keep the other marked messages from being removed.
+func (s *psess) externalRemoveMarked() {
+	n := 0
+	for _, m := range s.marked {
+		if m {
+			n++
+		}
+	}
+	if n < 2 {
+		return
+	}
+	for i, m := range s.marked {
+		if !m || i >= len(s.S) {
+			continue
+		}
+		id := s.S[i].id
+		ids := s.live[s.box]
+		for k := range ids {
+			if ids[k] != id {
+				continue
+			}
+			if err := s.env.Store.RemoveMessage(s.box, id); err != nil {
+				panic(fmt.Sprintf("harness: RemoveMessage(%s,%s): %v", s.box, id, err))
+			}
+			s.live[s.box] = append(append([]string{}, ids[:k]...), ids[k+1:]...)
+			s.removedBy[id] = true
+			s.extRem = true
+			s.c.Count("external_removes", 1)
+			s.c.Count("external_removes_of_marked_members", 1)
+			return
+		}
+	}
 }
 
 // takeSnapshot reads mailbox box the way any client of the store can, just before a login command.
@@ -809,6 +863,15 @@ func (s *psess) play(cm cmd) {
 		if closed {
 			s.over = true
 			s.ending = "quit-refused"
+			if st == "TRANS" {
+				// The statement makes no exception for a QUIT that is answered -ERR: the client
+				// issued QUIT in TRANSACTION state and the session ended, so exactly the marked
+				// messages must be gone (one that another party already removed counts as gone).
+				// No fault is injected into the store here, so a correct server has no reason
+				// to leave marked messages behind.
+				s.ending = "quit-transaction"
+				s.c.Count("quit_in_transaction_answered_err", 1)
+			}
 		}
 		return
 	}
